@@ -111,13 +111,16 @@ func c04Mech(in string, m *d2ast.Map, diffPath string) string {
 			if x.Value.Map != nil && len(x.Value.Map.Nodes) == 0 {
 				emptyMap = true
 			}
-		case *d2ast.UnquotedString:
-			s := x.ScalarString()
-			if _, ok := d2ast.ReservedKeywords[strings.ToLower(s)]; ok && s != strings.ToLower(s) {
-				kwCase = true
-			}
-			if l := strings.ToLower(s); (l == "true" || l == "false" || l == "null") && s != l {
-				kwCase = true
+		case *d2ast.KeyPath:
+			// only KEY segments: the compiler ignores a keyword key in another letter case while the formatter lower-cases
+			// it (recorded finding); keyword-spelled VALUES are printed as written since the fix and get no mechanism
+			for _, sb := range x.Path {
+				if u, ok := sb.Unbox().(*d2ast.UnquotedString); ok {
+					s := u.ScalarString()
+					if _, ok := d2ast.ReservedKeywords[strings.ToLower(s)]; ok && s != strings.ToLower(s) {
+						kwCase = true
+					}
+				}
 			}
 		}
 		return true
@@ -128,7 +131,7 @@ func c04Mech(in string, m *d2ast.Map, diffPath string) string {
 	case boardThenContent:
 		return "content-declared-after-board-block"
 	case kwCase:
-		return "reserved-keyword-in-other-letter-case"
+		return "reserved-keyword-key-in-other-letter-case"
 	case strings.Contains(in, "\"\"\""):
 		return "input-has-block-comment"
 	case emptyMap:
